@@ -15,11 +15,12 @@ import (
 // C09: evaluation leaves the machine clean — no stack, frame or context residue.
 
 type machineUse struct {
-	MaxSPMain  int
-	MaxSPChild int
-	MaxCtx     int
-	StackLen   int
-	Steps      int
+	MaxSPMain      int
+	MaxSPChild     int
+	MaxCtx         int
+	MaxFramesChild int
+	StackLen       int
+	Steps          int
 }
 
 // c09Run1 runs a session on a fresh VM; after every statement the operand
@@ -33,8 +34,13 @@ func c09Run1(stmts []string, fuel int, noResult bool) (sig, detail string, use m
 			if st.SP > use.MaxSPMain {
 				use.MaxSPMain = st.SP
 			}
-		} else if st.SP > use.MaxSPChild {
-			use.MaxSPChild = st.SP
+		} else {
+			if st.SP > use.MaxSPChild {
+				use.MaxSPChild = st.SP
+			}
+			if st.Frames > use.MaxFramesChild {
+				use.MaxFramesChild = st.Frames
+			}
 		}
 		in := (*s.CR.CS)[info.IP]
 		if op := in.OpCode(); op == bytecode.SCONT || op == bytecode.CCONT || (op == bytecode.JMP && in.Src0Addr() < 0) {
@@ -108,8 +114,8 @@ func c09Judge(it c09Item) (sig, detail string, skipped bool) {
 	if sig != "" || skipped {
 		return sig, detail, skipped
 	}
-	if ub.MaxSPMain > ua.MaxSPMain || ub.MaxSPChild > ua.MaxSPChild || ub.MaxCtx > ua.MaxCtx || ub.StackLen > ua.StackLen {
-		return "working-storage-grows", fmt.Sprintf("the same loop with %d and %d iterations: peak operand stack main %d→%d, generator contexts %d→%d, live contexts %d→%d, stack length %d→%d; program: %v", it.NA, it.NB, ua.MaxSPMain, ub.MaxSPMain, ua.MaxSPChild, ub.MaxSPChild, ua.MaxCtx, ub.MaxCtx, ua.StackLen, ub.StackLen, tail(it.B)), false
+	if ub.MaxSPMain > ua.MaxSPMain || ub.MaxSPChild > ua.MaxSPChild || ub.MaxCtx > ua.MaxCtx || ub.StackLen > ua.StackLen || ub.MaxFramesChild > ua.MaxFramesChild {
+		return "working-storage-grows", fmt.Sprintf("the same loop with %d and %d iterations: peak operand stack main %d→%d, generator contexts %d→%d, live contexts %d→%d, stack length %d→%d, call frames in a generator context %d→%d; program: %v", it.NA, it.NB, ua.MaxSPMain, ub.MaxSPMain, ua.MaxSPChild, ub.MaxSPChild, ua.MaxCtx, ub.MaxCtx, ua.StackLen, ub.StackLen, ua.MaxFramesChild, ub.MaxFramesChild, tail(it.B)), false
 	}
 	return "", "", false
 }
@@ -150,6 +156,11 @@ func c09Forms() []T {
 		ForN([]string{"j", "m"}, []T{Call("fromto", I(0), I(2)), Call("lit")}, Bin("+", N("j"), N("m"))),
 		For("j", Call("fromto", I(0), I(3)), For("m", Call("lit"), If(Bin("==", N("m"), I(2)), N("m")))),
 		Yld(I(5)), Yld(Bin("+", N("gi"), I(1))), Asg("h", Fn(Ps("p"), N("p"))), Call("write", S("")), Call("toa", N("gi")),
+		IfE(cf, Ret(I(5)), I(6)), IfE(c, I(5), Ret(I(6))), IfE(cf, Ret(I(5)), Bin("+", N("gi"), I(1))), IfE(cf, Ret(I(5)), Call("id", I(6))), If(cf, Ret(I(5))),
+		IfE(cf, Blk(Asg("x", I(1)), Ret(I(5))), Blk(Asg("x", I(2)), Bin("+", N("x"), I(1)))),
+		ForN([]string{"j", "m"}, []T{Call("lit"), Call("fromto", I(0), I(9))}, Bin("+", N("j"), N("m"))),
+		ForN([]string{"j", "m"}, []T{Call("fromto", I(0), I(2)), Call("fromto", I(0), I(2))}, N("j")),
+		ForN([]string{"j", "m", "n"}, []T{Call("fromto", I(0), I(5)), Call("lit"), Call("fromto", I(0), I(7))}, N("n")),
 		Ret(I(5)), Ret(Bin("+", N("gi"), I(1))), If(c, Ret(I(5))), For("j", Call("fromto", I(0), I(5)), If(Bin("==", N("j"), I(3)), Ret(N("j")))), Wh(c, Ret(Call("id", I(5)))),
 		Blk(I(5), I(6)), Blk(Bin("+", N("gi"), I(1)), Call("id", I(5))), Call("retin"), Call("retinb"), Asg("x", Call("retin")),
 	}
